@@ -6,9 +6,16 @@
     (Cursor/Model.v: FilePages.ReadPage / SeekToRow with and without an offset
     index, rowGroupRows.ReadRows / SeekToRow / Reset on top), for EVERY chunk
     layout with non-empty pages and EVERY finite history.  The abstract
-    specification (Cursor/Spec.v) is a single row position. *)
+    specification (Cursor/Spec.v) is a single row position.
+
+    Above the page cursor (Cursor/Multi.v, Cursor/AsyncPages.v): rowGroupRows
+    over several columns with different page layouts, multiPages (the
+    concatenation of the row groups), reader / Reader / GenericReader, and
+    asyncPages under every interleaving of its two goroutines. *)
 From Coq Require Import List Arith Bool Lia.
+From PQ Require Import Conc.Sem Conc.Async.
 From PQ Require Import Cursor.Model Cursor.Spec Cursor.Proofs Cursor.Rows.
+From PQ Require Import Cursor.Multi Cursor.MultiProofs Cursor.AsyncPages Cursor.AsyncPagesProofs.
 Import ListNotations.
 
 (** ** Page cursor with an offset index *)
@@ -197,3 +204,206 @@ Proof. vm_compute. reflexivity. Qed.
 Print Assumptions C08_pinned_refuted.
 Print Assumptions C08_lazy_index_dictionary_pinned_refuted.
 Print Assumptions C08_rows_reader_reset_pinned_refuted.
+
+(** * The layers above the page cursor *)
+
+(** ** rowGroupRows over SEVERAL columns with DIFFERENT page layouts
+
+    [layout_ok N cols]: at least one column, every column chunk has non-empty
+    pages and [N] rows.  Every column is read through its own page cursor (the
+    cursor of the theorems above); rows are assembled by reading from every
+    column; a seek positions every column; r.rowIndex is advanced by every
+    batch, also the one that comes back with io.EOF.  For every history of
+    ReadRows (any batch sizes) / SeekToRow / Reset the outputs are those of one
+    row position, and every assembled row holds the same row of every column. *)
+Theorem C08_rows_multi_column : forall N cols ops,
+  layout_ok N cols -> run_mrows_indexed cols ops = run_mspec true (length cols) N ops.
+Proof. exact mrows_indexed_refines. Qed.
+
+Theorem C08_rows_multi_column_noindex : forall N cols ops,
+  layout_ok N cols -> run_mrows_noindex cols ops = run_mspec false (length cols) N ops.
+Proof. exact mrows_noindex_refines. Qed.
+
+Theorem C08_rows_multi_column_seek_then_read : forall N cols h k ns,
+  layout_ok N cols ->
+  concat (map mout_rows (skipn (S (length h))
+    (run_mrows_indexed cols (h ++ RSeek k :: map RRead ns)))) =
+  widen (length cols) (firstn (list_sum ns) (skipn k (seq 0 N))).
+Proof. exact mrows_indexed_seek_then_read. Qed.
+
+(** the column reader of the multi-column model is the one-column reader of
+    the theorems above *)
+Theorem C08_column_reader_same : forall cstep fuel,
+  @gread_rows state cstep fuel = read_rows cstep fuel.
+Proof. reflexivity. Qed.
+
+(** The stale-position defect class (seeded: r.rowIndex not advanced when the
+    final batch comes back with io.EOF, so that a later SeekToRow to the row at
+    which that batch started is skipped) violates the statement. *)
+Theorem C08_rows_multi_column_stale_rowindex_refuted :
+  exists N cols ops, layout_ok N cols /    run_mrows_indexed_stale cols ops <> run_mspec true (length cols) N ops.
+Proof.
+  exists 12, [[4; 4; 4]; [5; 7]; [12]], [RSeek 10; RRead 5; RSeek 10; RRead 1].
+  split; [split; [discriminate|repeat constructor]|]. vm_compute. discriminate.
+Qed.
+
+(** ** multiPages: the page cursor of a column over several row groups
+
+    [mp_locate]: the global row number -> (row group, row within it) of
+    multiPages.SeekToRow. *)
+Theorem C08_global_row_to_row_group : forall chunks k idx k',
+  mp_locate (map total_rows chunks) 0 k = (idx, k') ->
+  idx <= length chunks /\ k = mp_offset chunks idx + k' /  (idx < length chunks -> k' < total_rows (nth idx chunks [])).
+Proof. exact mp_locate_global. Qed.
+
+Theorem C08_multi_pages_refines_position : forall chunks ops,
+  Forall positive chunks ->
+  run_mpages_indexed chunks ops = run_spec_noindex (concat chunks) ops.
+Proof. exact mpages_indexed_refines. Qed.
+
+Theorem C08_multi_pages_noindex_refines_position : forall chunks ops,
+  Forall positive chunks ->
+  run_mpages_noindex chunks ops = run_spec_noindex (concat chunks) ops.
+Proof. exact mpages_noindex_refines. Qed.
+
+(** ** Reader / GenericReader / the rows of a multiRowGroup
+
+    [file_ok rg_rows cols]: [cols] gives, for every column, the page layout of
+    its chunk in every row group; every chunk has non-empty pages and the
+    chunks of row group j have [nth j rg_rows] rows.  For every history of
+    ReadRows / Reader.Read / GenericReader.Read / SeekToRow / Reset, seeks
+    across row groups, reads spanning a boundary and reads after the end
+    included, the outputs are those of one row position over the
+    concatenation of the row groups. *)
+Theorem C08_rows_multi_row_group : forall rg_rows cols ops,
+  file_ok rg_rows cols ->
+  run_mgrows_indexed cols ops = run_mspec false (length cols) (list_sum rg_rows) ops.
+Proof. exact mgrows_indexed_refines. Qed.
+
+Theorem C08_reader_multi_row_group : forall rg_rows cols ops,
+  file_ok rg_rows cols ->
+  run_reader_indexed cols ops = run_xspec (length cols) (list_sum rg_rows) ops.
+Proof. exact reader_indexed_refines. Qed.
+
+Theorem C08_reader_multi_row_group_noindex : forall rg_rows cols ops,
+  file_ok rg_rows cols ->
+  run_reader_noindex cols ops = run_xspec (length cols) (list_sum rg_rows) ops.
+Proof. exact reader_noindex_refines. Qed.
+
+(** a file with one row group is read through the row group itself *)
+Theorem C08_reader_one_row_group : forall N cols ops,
+  layout_ok N cols -> 0 < N ->
+  run_reader1_indexed cols ops = run_xspec (length cols) N ops.
+Proof. exact reader1_indexed_refines. Qed.
+
+Theorem C08_reader_one_row_group_noindex : forall N cols ops,
+  layout_ok N cols -> run_reader1_noindex cols ops = run_xspec (length cols) N ops.
+Proof. exact reader1_noindex_refines. Qed.
+
+Theorem C08_reader_seek_then_read : forall rg_rows cols h k ns,
+  file_ok rg_rows cols ->
+  concat (map mout_rows (skipn (S (length h))
+    (run_reader_indexed cols (h ++ XSeek k :: map XReadRows ns)))) =
+  widen (length cols) (firstn (list_sum ns) (skipn k (seq 0 (list_sum rg_rows)))).
+Proof. exact reader_indexed_seek_then_read. Qed.
+
+(** ** asyncPages: every interleaving of the consumer and the producer goroutine
+
+    [axstep]: the protocol of Conc/Async.v (channels, version counter) running
+    next to a real page cursor.  For every program of ReadPage / SeekToRow
+    calls and EVERY schedule: what the calls returned so far is a prefix of
+    what the synchronous cursor returns for the program, all of it once the
+    consumer has finished; and as long as the consumer has a call to make or to
+    finish some step is enabled (no deadlock).  Uses [async_versioned] and
+    [async_no_deadlock] of property C15. *)
+Theorem C08_async_equals_sync : forall pages calls sched x,
+  positive pages -> pages <> [] -> Forall noclose calls ->
+  Sem.run (axstep (step_indexed pages)) (axinit init calls) sched = Some x ->
+  let sync := run_indexed pages (map op_of_call calls) in
+  xouts x = firstn (length (xouts x)) sync /  (ax_finished x = true -> xouts x = sync) /  (wants (xa x) -> exists l x', axstep (step_indexed pages) x l = Some x').
+Proof. exact async_indexed_equals_sync. Qed.
+
+Theorem C08_async_noindex_equals_sync : forall pages calls sched x,
+  positive pages -> Forall noclose calls ->
+  Sem.run (axstep (step_noindex false pages)) (axinit init calls) sched = Some x ->
+  let sync := run_noindex pages (map op_of_call calls) in
+  xouts x = firstn (length (xouts x)) sync /  (ax_finished x = true -> xouts x = sync) /  (wants (xa x) -> exists l x', axstep (step_noindex false pages) x l = Some x').
+Proof. exact async_noindex_equals_sync. Qed.
+
+Print Assumptions C08_rows_multi_column.
+Print Assumptions C08_rows_multi_column_noindex.
+Print Assumptions C08_rows_multi_column_seek_then_read.
+Print Assumptions C08_rows_multi_column_stale_rowindex_refuted.
+Print Assumptions C08_global_row_to_row_group.
+Print Assumptions C08_multi_pages_refines_position.
+Print Assumptions C08_multi_pages_noindex_refines_position.
+Print Assumptions C08_rows_multi_row_group.
+Print Assumptions C08_reader_multi_row_group.
+Print Assumptions C08_reader_multi_row_group_noindex.
+Print Assumptions C08_reader_one_row_group.
+Print Assumptions C08_reader_one_row_group_noindex.
+Print Assumptions C08_reader_seek_then_read.
+Print Assumptions C08_async_equals_sync.
+Print Assumptions C08_async_noindex_equals_sync.
+
+(** ** Non-vacuity of the new hypotheses and statements *)
+
+Definition ex_cols : list chunk := [[4; 4; 4]; [5; 7]; [12]; [1; 1; 10]].
+
+Example C08_ex_layout_ok : layout_ok 12 ex_cols.
+Proof. split; [discriminate|repeat constructor]. Qed.
+
+(* the final batch comes back with io.EOF; the seek to the row at which it
+   started is honoured *)
+Example C08_ex_multi_column :
+  run_mrows_indexed ex_cols [RRead 3; RSeek 10; RRead 5; RSeek 10; RRead 1; RSeek 6; RRead 2; RReset; RRead 1]
+  = [MRows [[0;0;0;0]; [1;1;1;1]; [2;2;2;2]] false; MSeekOk;
+     MRows [[10;10;10;10]; [11;11;11;11]] true; MSeekOk; MRows [[10;10;10;10]] false; MSeekOk;
+     MRows [[6;6;6;6]; [7;7;7;7]] false; MDone; MRows [[0;0;0;0]] false].
+Proof. vm_compute. reflexivity. Qed.
+
+Example C08_ex_multi_column_stale :
+  run_mrows_indexed_stale ex_cols [RSeek 10; RRead 5; RSeek 10; RRead 1]
+  = [MSeekOk; MRows [[10;10;10;10]; [11;11;11;11]] true; MSeekOk; MRows [] true].
+Proof. vm_compute. reflexivity. Qed.
+
+(* two columns, three row groups of 8, 6 and 3 rows *)
+Definition ex_file : list (list chunk) := [[[4; 4]; [3; 3]; [3]]; [[8]; [1; 5]; [2; 1]]].
+
+Example C08_ex_file_ok : file_ok [8; 6; 3] ex_file.
+Proof. split; [discriminate|repeat constructor]. Qed.
+
+Example C08_ex_multi_pages :
+  run_mpages_indexed [[4; 4]; [3; 3]; [3]]
+    [ReadPage; ReadPage; ReadPage; SeekToRow 15; ReadPage; ReadPage; SeekToRow 9; ReadPage; SeekToRow 40; ReadPage]
+  = [Rows 0 4; Rows 4 4; Rows 8 3; SeekOk; Rows 15 2; EOF; SeekOk; Rows 9 2; SeekOk; EOF].
+Proof. vm_compute. reflexivity. Qed.
+
+Example C08_ex_locate : mp_locate (map total_rows [[4; 4]; [3; 3]; [3]]) 0 15 = (2, 1).
+Proof. vm_compute. reflexivity. Qed.
+
+(* a read spanning two boundaries, a seek into the last row group, Read after
+   the end, a backward seek across a boundary *)
+Example C08_ex_reader :
+  run_reader_indexed ex_file
+    [XReadRows 3; XRead1; XSeek 7; XGRead 8; XSeek 15; XReadRows 5; XRead1; XSeek 7; XRead1; XReset; XReadRows 1]
+  = [MRows [[0;0]; [1;1]; [2;2]] false; MRows [[3;3]] false; MSeekOk;
+     MRows [[7;7]; [8;8]; [9;9]; [10;10]; [11;11]; [12;12]; [13;13]; [14;14]] false; MSeekOk;
+     MRows [[15;15]; [16;16]] true; MRows [] true; MSeekOk; MRows [[7;7]] false; MDone;
+     MRows [[0;0]] false].
+Proof. vm_compute. reflexivity. Qed.
+
+(* a complete schedule of the two goroutines for the history that exhibited
+   the repaired defect, found by the executable scheduler *)
+Definition ex_calls : list cop := [CRead; CSeek 21; CSeek 2; CRead; CRead].
+Definition ex_sched : list alabel :=
+  snd (ax_sched (step_indexed ex_pages)
+         [3;1;4;1;5;9;2;6;5;3;5;8;9;7;9;3;2;3;8;4;6;2;6;4;3;3;8;3;2;7;9;5;0;2;8;8;4;1;9;7;1;6;9;3;9;9;3;7;5;1;0;5;8;2;0;9;7;4;9;4]
+         (axinit init ex_calls)).
+
+Example C08_ex_async :
+  exists x, Sem.run (axstep (step_indexed ex_pages)) (axinit init ex_calls) ex_sched = Some x /            ax_finished x = true /            xouts x = [Rows 0 4; SeekOk; SeekOk; Rows 2 2; Rows 4 4] /            xouts x = run_indexed ex_pages (map op_of_call ex_calls).
+Proof. vm_compute. eexists. repeat split. Qed.
+
+Example C08_ex_noclose : Forall noclose ex_calls.
+Proof. repeat constructor; discriminate. Qed.
